@@ -90,16 +90,18 @@ static std::string do_wsess(std::istringstream& is) {
 
 // object queue alone: one producer (n objects, then setFileSize(tellp)), one consumer (this thread) reading until null
 static std::string do_qsess(std::istringstream& is) {
-    Opts o; std::string tok; long cap = 1, n = 0, abortat = -1;
+    Opts o; std::string tok; long cap = 1, n = 0, abortat = -1, presize = 0;
     while (is >> tok) { if (tok.rfind("cap=", 0) == 0) cap = atol(tok.c_str() + 4); else if (tok.rfind("n=", 0) == 0) n = atol(tok.c_str() + 2);
-        else if (tok.rfind("abortat=", 0) == 0) abortat = atol(tok.c_str() + 8); else parse_opt(tok, o); }
+        else if (tok.rfind("abortat=", 0) == 0) abortat = atol(tok.c_str() + 8); else if (tok.rfind("presize=", 0) == 0) presize = atol(tok.c_str() + 8); else parse_opt(tok, o); }
     vshim::configure(o.choices, o.policy, o.seed, getenv("VERIF_MAXSTEPS") ? atol(getenv("VERIF_MAXSTEPS")) : 400000);
     std::string got; bool nullseen = false; long cnt = 0;
     {
         ObjectQueue<ObjectHeaderBase> q; q.setBufferSize(uint32_t(cap));
         std::vector<ObjectHeaderBase*> made;
         for (long i = 0; i < n; i++) { CanMessage* m = new CanMessage; m->id = uint32_t(i + 1); made.push_back(m); }
-        std::thread prod([&] { for (long i = 0; i < n; i++) q.write(made[size_t(i)]); q.setFileSize(q.tellp()); });
+        // presize=1: the number of objects is declared before the first one is written (a consumer asleep on the empty queue is woken
+        // by that declaration and has to go back to sleep)
+        std::thread prod([&] { if (presize) q.setFileSize(uint32_t(n)); for (long i = 0; i < n; i++) q.write(made[size_t(i)]); if (!presize) q.setFileSize(q.tellp()); });
         for (;;) {
             if (abortat >= 0 && cnt == abortat) { q.abort(); }
             ObjectHeaderBase* ob = q.read();
